@@ -265,6 +265,30 @@ def expand_includes(lines, base):
     return res
 
 
+def receiver_start(m, k):
+    """index just before the start of the postfix chain (identifiers, `.`, `::`, `&`, `?`, balanced brackets, and
+    whitespace that is followed by a `.`) that ends at offset k of the masked text m"""
+    i, depth = k - 1, 0
+    while i >= 0:
+        ch = m[i]
+        if ch in ')]':
+            depth += 1
+        elif ch in '([':
+            if depth == 0:
+                break
+            depth -= 1
+        elif depth == 0 and ch in ' \n\t':
+            j = i
+            while j < k and m[j] in ' \n\t':
+                j += 1
+            if m[j] != '.':
+                break
+        elif depth == 0 and not (ch.isalnum() or ch in '_.:&?'):
+            break
+        i -= 1
+    return i
+
+
 def desugar_map_or_else(text):
     """X.map_or_else(|| A, |p| B)  ->  (match X { None => A, Some(p) => B })   — the definition of
     Option::map_or_else; needed because Verus rejects closures that capture `&mut self`."""
@@ -319,7 +343,7 @@ def desugar_option_map(text):
     start = 0
     while True:
         m = mask(text)
-        mm = re.search(r'\.as_ref\(\)\s*\.map\(', m[start:])
+        mm = re.search(r'\.as_ref\(\)\s*\.(?:map|and_then)\(', m[start:])
         if not mm:
             return text, n
         k = start + mm.start()
@@ -331,21 +355,11 @@ def desugar_option_map(text):
             start = op
             continue
         s1, p1, b1, e1 = cls[0]
-        # receiver chain before `.as_ref()`
-        i, depth = k - 1, 0
-        while i >= 0:
-            ch = m[i]
-            if ch in ')]':
-                depth += 1
-            elif ch in '([':
-                if depth == 0:
-                    break
-                depth -= 1
-            elif depth == 0 and not (ch.isalnum() or ch in '_.:&'):
-                break
-            i -= 1
+        i = receiver_start(m, k)
         recv = text[i + 1:k].strip() + '.as_ref()'
-        new = '(match %s { None => None, Some(%s) => Some(%s) })' % (recv, args[s1 + 1:p1].strip(), args[b1:e1].strip())
+        is_and_then = 'and_then' in m[k:op]
+        new = '(match %s { None => None, Some(%s) => %s })' % (
+            recv, args[s1 + 1:p1].strip(), args[b1:e1].strip() if is_and_then else 'Some(%s)' % args[b1:e1].strip())
         text = text[:i + 1] + new + text[cl + 1:]
         n += 1
         start = i + 1 + len(new)
